@@ -41,9 +41,14 @@ func init() {
 			return jobs
 		},
 		Setup: func(e *sym.Engine, st *sym.State, l *sym.Loaded) {
+			px := l.Pkgs[modPath+"/proxy"]
+			// the package initialiser runs (a change may add package-level tables); the parsed templates,
+			// which the harness replaces anyway, are opaque
+			e.OpaquePkgs = map[string]bool{"text/template": true, "html/template": true, "time": true}
+			e.RunInit(st, px)
+			e.OpaquePkgs = nil
 			setupNetip(e, st, l)
 			e.Ctx["latin1"] = true
-			px := l.Pkgs[modPath+"/proxy"]
 			e.Redirects["github.com/AdguardTeam/gomitmproxy/proxyutil.ReadDecompressedBody"] = px.Func("verifReadDecompressedBody")
 			e.Redirects["github.com/AdguardTeam/gomitmproxy/proxyutil.DecodeLatin1"] = px.Func("verifDecodeLatin1")
 			e.Redirects["github.com/AdguardTeam/gomitmproxy/proxyutil.EncodeLatin1"] = px.Func("verifEncodeLatin1")
